@@ -86,6 +86,17 @@ func (e *Env) Restart() error {
 	return nil
 }
 
+// Rebuild builds a new controller instance in the same process (same clientset, same discovery map):
+// what happens when the controller object's spec changes.
+func (e *Env) Rebuild() error {
+	ctl, err := e.Factory(e.W, &e.Scn.Cfg)
+	if err != nil {
+		return err
+	}
+	e.Ctl = ctl
+	return nil
+}
+
 // Parent returns the live parent (nil if gone).
 func (e *Env) Parent() map[string]any {
 	return e.W.Sim.Get(e.Scn.Cfg.ParentResource, e.Scn.ParentNS(), e.Scn.ParentName())
